@@ -639,6 +639,16 @@ type StringOpts struct {
 	} `json:"l"`
 }
 
+// CaseFieldsLong: names that are equal up to case next to a name longer than 16 bytes (structs with such a
+// name are looked up without the short-key index)
+type CaseFieldsLong struct {
+	Name                       int
+	NAME                       int
+	NaMe                       int `json:"name"`
+	Other                      int `json:"Name2"`
+	AFieldNameBeyondSixteenByt int `json:"aFieldNameBeyondSixteenBytes"`
+}
+
 type CaseFields struct {
 	Name  int
 	NAME  int
